@@ -166,6 +166,21 @@ def dropCR (l : Bytes) : Bytes := if l.getLast? = some CR then l.dropLast else l
 def itemsFrom (data : Bytes) (off : Nat) : List Item :=
   (splitLines (data.drop off)).filterMap fun l => parseLine (dropCR l)
 
+/-- the items whose line (with its LF) lies wholly before byte `k` of `serialise its` -/
+def wholeLines : List Item → Nat → List Item
+  | [], _ => []
+  | it :: r, k => if (fat it).length + 1 ≤ k then it :: wholeLines r (k - ((fat it).length + 1)) else []
+
+/-- the bytes of the line that byte `k` falls into (`[]` when `k` is on a line boundary) -/
+def fragment : List Item → Nat → Bytes
+  | [], _ => []
+  | it :: r, k => if (fat it).length + 1 ≤ k then fragment r (k - ((fat it).length + 1)) else (fat it).take k
+
+/-- the item the fragment belongs to -/
+def tornItem : List Item → Nat → Option Item
+  | [], _ => none
+  | it :: r, k => if (fat it).length + 1 ≤ k then tornItem r (k - ((fat it).length + 1)) else some it
+
 /-! ## L2: the index file (big-endian `int64` pairs) -/
 
 def be8 (n : Nat) : Bytes :=
@@ -231,22 +246,31 @@ def curSize (fs : Dir) : Nat :=
   | some f => f.data.length
   | none => 0
 
+/-- `writeIndex(sec, pos)` with `pos` = the current position in the data file -/
+def Writer.addIndex (w : Writer) (sec : Nat) : Writer :=
+  let pos := curSize w.files
+  { w with files := modLast w.files fun f =>
+      { f with idx := f.idx ++ be8 sec ++ be8 pos, ents := f.ents ++ [(sec, pos)] } }
+
+/-- `writeItemsAndFlush` -/
+def Writer.append (w : Writer) (items : List Item) : Writer :=
+  { w with files := modLast w.files fun f =>
+      { f with data := f.data ++ serialise items, lines := f.lines ++ items } }
+
+def Writer.rollIf (w : Writer) (c : Bool) (ts : Nat) : Writer := if c then w.roll ts else w
+
 /-- `Write(ts, items)` after the argument checks (`items ≠ []`, `ts > 0`) -/
 def Writer.write (w : Writer) (ts : Nat) (items : List Item) : Writer :=
   let sec := ts / 1000
   if sec < w.latestOpSec then w else
   let items := items.map fun i => { i with ts := ts, res := sanitize i.res }
-  let w1 :=
-    if sec > w.latestOpSec then
-      let pos := curSize w.files
-      let w' := { w with files := modLast w.files fun f =>
-                    { f with idx := f.idx ++ be8 sec ++ be8 pos, ents := f.ents ++ [(sec, pos)] } }
-      if dayOf sec > dayOf w.latestOpSec then w'.roll ts else w'
-    else w
-  let w2 := { w1 with files := modLast w1.files fun f =>
-                { f with data := f.data ++ serialise items, lines := f.lines ++ items } }
-  let w3 := if curSize w2.files ≥ w2.maxSize then w2.roll ts else w2
+  let w1 := if sec > w.latestOpSec then (w.addIndex sec).rollIf (decide (dayOf sec > dayOf w.latestOpSec)) ts else w
+  let w2 := w1.append items
+  let w3 := w2.rollIf (decide (curSize w2.files ≥ w2.maxSize)) ts
   { w3 with latestOpSec := max w3.latestOpSec sec }
+
+/-- a write history: `(ts, items)` per call of `Write` -/
+def runWrites (w : Writer) (h : List (Nat × List Item)) : Writer := h.foldl (fun w p => w.write p.1 p.2) w
 
 /-- a crash: the last data file keeps only its first `k` bytes -/
 def cutData (fs : Dir) (k : Nat) : Dir := modLast fs fun f => { f with data := f.data.take k }
